@@ -14,7 +14,9 @@ def build_stream(ctx: fw.Ctx, enum_stride: int, n_random: int, max_ops: int, enu
     random documents with random histories. Returns HistRec list (real code already run)."""
     hists = []
     for i, (text, ops, info) in enumerate(docs.enumerate_single_ops()):
-        if (i + enum_offset + ctx.seed) % enum_stride != 0:
+        # the slice depends on the seed; the un-wrapped documents are always taken in full, so that what a
+        # change does to the bare shapes is seen whatever the seed
+        if (i + enum_offset + ctx.seed) % enum_stride != 0 and info.get("wrapper") != "bare":
             continue
         hists.append(ec.run_real(text, ops, dict(info, stream="enum")))
     for text, ops, info in docs.enumerate_special():
